@@ -30,6 +30,38 @@ Theorem c13_ok_from_document :
 Proof. exact rebuild_ok_inv. Qed.
 Print Assumptions c13_ok_from_document.
 
+(* for rebuild itself: every node of an Ok result is a (key, value) pair of the document, every outgoing and every incoming adjacency entry is an edge triple of the document between the nodes bound to its two keys — nothing else exists in the result *)
+Theorem c13_rebuild_all_from_document :
+  forall (K V E : Type) (keqb : K -> K -> bool),
+       KeqbSpec keqb ->
+       forall (ns : list (K * V)) (es : list (K * K * E)) (h' : heap K V E) (g' : graph K),
+       rebuild keqb ns es = DeOk h' g' ->
+       (forall (u : nat) (kv : K * V), nth_error (nodes h') u = Some kv -> In kv ns) /\
+       (forall (u v : nat) (e : E),
+        In (v, e) (outs h' u) ->
+        exists s t : K, In (s, t, e) es /\ g_get keqb g' s = Some u /\ g_get keqb g' t = Some v) /\
+       (forall (u v : nat) (e : E),
+        In (u, e) (ins h' v) ->
+        exists s t : K, In (s, t, e) es /\ g_get keqb g' s = Some u /\ g_get keqb g' t = Some v).
+Proof. exact rebuild_all_from_document. Qed.
+Print Assumptions c13_rebuild_all_from_document.
+
+(* the same for deserialize (the public entry point), through decode_doc *)
+Theorem c13_deserialize_all_from_document :
+  forall (K V E : Type) (keqb : K -> K -> bool),
+       KeqbSpec keqb ->
+       forall (dk : value -> option K) (dv : value -> option V) (de : value -> option E) 
+         (doc : value) (h : heap K V E) (g : graph K),
+       deserialize keqb dk dv de doc = DOk h g ->
+       exists (ns : list (K * V)) (es : list (K * K * E)),
+         decode_doc dk dv de doc = Some (ns, es) /\
+         (forall (u : nat) (kv : K * V), nth_error (nodes h) u = Some kv -> In kv ns) /\
+         (forall (u v : nat) (e : E),
+          In (v, e) (outs h u) ->
+          exists s t : K, In (s, t, e) es /\ g_get keqb g s = Some u /\ g_get keqb g t = Some v).
+Proof. exact deserialize_all_from_document. Qed.
+Print Assumptions c13_deserialize_all_from_document.
+
 (* a repeated key keeps the first declared value *)
 Theorem c13_first_value_wins :
   forall (K V E : Type) (keqb : K -> K -> bool),
